@@ -29,6 +29,9 @@ type SpecEnv struct {
 	frame      *Frame
 	override   map[ssa.Value]SV
 	prove      bool // clause is being proved (witness hints of exists are used), not assumed
+	preSt      *State // loop-entry state for pre(...) inside loop invariants
+	skolem     *int   // non-nil: skolemise quantifiers in goal position (counts how many were)
+	neg, mixed bool   // polarity of the sub-expression being evaluated
 	freshBase  string // watermark that fresh() is relative to (call-time watermark at a call site); "" = function entry
 }
 
@@ -118,8 +121,22 @@ func (e *SpecEnv) boolClause(cl *Clause) (out string) {
 	if e.sortOfVal(v) != "Bool" {
 		e.fail("%s: clause is not boolean: %s", cl.Src, cl.Text)
 	}
+	if os.Getenv("GOVC_NOSKOLEM") == "" && e.prove && e.skolem == nil && strings.Contains(v.T, "(forall ") || e.prove && e.skolem == nil && strings.Contains(v.T, "(exists ") {
+		// the form that is proved has its goal-position quantifiers skolemised (solvers do not always do this
+		// themselves under several connectives); the quantified form is what is assumed afterwards
+		n := 0
+		e2 := *e
+		e2.skolem = &n
+		v2 := e2.eval(e2.clauseExpr(cl))
+		if n > 0 {
+			e.c.skForm[e.c.simplify(v.T)] = v2.T
+		}
+	}
 	return v.T
 }
+
+func (e *SpecEnv) flip() *SpecEnv { n := *e; n.neg = !n.neg; return &n }
+func (e *SpecEnv) mix() *SpecEnv  { n := *e; n.mixed = true; return &n }
 
 func (e *SpecEnv) intClause(cl *Clause) string {
 	v := e.eval(e.clauseExpr(cl))
@@ -295,7 +312,7 @@ func (e *SpecEnv) eval(x *Expr) SVal {
 		}
 		return goVal(sel(e.st.get(c.boxHeap(pt.Elem())), p.T), pt.Elem())
 	case "not":
-		return goVal(not(e.evalBool(x.Args[0])), tBool)
+		return goVal(not(e.flip().evalBool(x.Args[0])), tBool)
 	case "neg":
 		return goVal("(- "+e.eval(x.Args[0]).T+")", tInt)
 	case "call":
@@ -305,11 +322,11 @@ func (e *SpecEnv) eval(x *Expr) SVal {
 	case "||":
 		return goVal(or(e.evalBool(x.Args[0]), e.evalBool(x.Args[1])), tBool)
 	case "imp":
-		return goVal(implies(e.evalBool(x.Args[0]), e.evalBool(x.Args[1])), tBool)
+		return goVal(implies(e.flip().evalBool(x.Args[0]), e.evalBool(x.Args[1])), tBool)
 	case "iff":
-		return goVal(eq(e.evalBool(x.Args[0]), e.evalBool(x.Args[1])), tBool)
+		return goVal(eq(e.mix().evalBool(x.Args[0]), e.mix().evalBool(x.Args[1])), tBool)
 	case "==", "!=":
-		a, b := e.eval(x.Args[0]), e.eval(x.Args[1])
+		a, b := e.mix().eval(x.Args[0]), e.mix().eval(x.Args[1])
 		r := e.equal(a, b)
 		if x.Op == "!=" {
 			r = not(r)
@@ -737,6 +754,12 @@ func (e *SpecEnv) bind(name string, v specVar) *SpecEnv {
 func (e *SpecEnv) call(x *Expr) SVal {
 	c := e.c
 	fn := x.Args[0]
+	if fn.Op != "id" || (fn.Name != "old" && fn.Name != "pre" && fn.Name != "forall" && fn.Name != "exists") {
+		_, isDef := e.x.S.Defs[fn.Name]
+		if !(fn.Op == "id" && isDef && e.x.S.Defs[fn.Name].Ret == "Bool") {
+			e = e.mix()
+		}
+	}
 	args := x.Args[1:]
 	if fn.Op == "id" {
 		switch fn.Name {
@@ -835,7 +858,7 @@ func (e *SpecEnv) call(x *Expr) SVal {
 			}
 			if fn.Name == "forall" && srt == "Int" && body.Op == "imp" {
 				// forall(i, c1 <= i && i < c2 ==> B) with a small constant range is a finite conjunction
-				if lo, hi, ok := constRange(body.Args[0], name); ok && hi-lo <= 32 {
+				if lo, hi, ok := e.constRange(body.Args[0], name); ok && hi-lo <= 128 {
 					var parts []string
 					for k := lo; k < hi; k++ {
 						ne := e.bind(name, specVar{sv: tv(num(k)), typ: typ, sort: srt})
@@ -843,6 +866,21 @@ func (e *SpecEnv) call(x *Expr) SVal {
 					}
 					return goVal(and(parts...), tBool)
 				}
+			}
+			if e.skolem != nil && !e.mixed && ((fn.Name == "forall" && !e.neg) || (fn.Name == "exists" && e.neg)) {
+				*e.skolem++
+				sk := c.freshConst("sk_"+name, srt)
+				ne := e.bind(name, specVar{sv: tv(sk), typ: typ, sort: srt})
+				b := ne.evalBool(body)
+				if typ != tInt && !ghostSort {
+					rng := c.wf(typ, sk, e.st.wm())
+					if fn.Name == "forall" {
+						b = implies(rng, b)
+					} else {
+						b = and(rng, b)
+					}
+				}
+				return goVal(b, tBool)
 			}
 			bn := c.freshName("q_" + name)
 			ne := e.bind(name, specVar{sv: tv(qsym(bn)), typ: typ, sort: srt})
@@ -960,6 +998,12 @@ func (e *SpecEnv) call(x *Expr) SVal {
 				b.T = c.zero(a.Typ)
 			}
 			return goVal(eq(a.T, b.T), tBool)
+		case "pre":
+			// pre(e): e evaluated in the heap as it was when the loop was first entered (loop invariants only)
+			if e.preSt == nil {
+				e.fail("pre(...) is only meaningful in a loop invariant")
+			}
+			return e.withState(e.preSt).eval(args[0])
 		case "content":
 			// content(s): the whole backing array of slice s (use unchanged(content(s)) for "no byte of it was written")
 			a := e.eval(args[0])
@@ -1026,9 +1070,10 @@ func (e *SpecEnv) call(x *Expr) SVal {
 			if len(args) != len(d.Params) {
 				e.fail("%s expects %d arguments", d.Name, len(d.Params))
 			}
-			ne := &SpecEnv{x: e.x, c: e.c, st: e.st, old: e.old, vars: map[string]specVar{}, pkg: e.pkg, guard: e.guard, freshBase: e.freshBase}
+			ne := &SpecEnv{x: e.x, c: e.c, st: e.st, old: e.old, vars: map[string]specVar{}, pkg: e.pkg, guard: e.guard, freshBase: e.freshBase,
+				prove: e.prove, skolem: e.skolem, neg: e.neg, mixed: e.mixed}
 			for i, a := range args {
-				v := e.eval(a)
+				v := e.mix().eval(a)
 				var want string
 				var gt types.Type
 				if isGoTypeSpec(d.Params[i][1]) {
@@ -1361,39 +1406,61 @@ func nilOfSort(s string) string {
 	return "0"
 }
 
-// constRange recognises `c1 <= i && i < c2` (also `c1 < i`, `i <= c2`) for integer literals c1, c2 and
-// returns the half-open range [lo, hi) of i.
-func constRange(g *Expr, name string) (lo, hi int64, ok bool) {
+// constRange recognises `c1 <= i && i < c2` (also `c1 < i`, `i <= c2`) where c1, c2 evaluate to integer
+// numerals in env e, and returns the half-open range [lo, hi) of i.
+func (e *SpecEnv) constRange(g *Expr, name string) (lo, hi int64, ok bool) {
 	if g.Op != "&&" || len(g.Args) != 2 {
 		return 0, 0, false
 	}
-	lit := func(x *Expr) (int64, bool) {
-		if x.Op != "int" {
+	var mentions func(x *Expr) bool
+	mentions = func(x *Expr) bool {
+		if x == nil {
+			return false
+		}
+		if x.Op == "id" && x.Name == name {
+			return true
+		}
+		for _, a := range x.Args {
+			if mentions(a) {
+				return true
+			}
+		}
+		return false
+	}
+	lit := func(x *Expr) (n int64, ok bool) {
+		if mentions(x) || (x.Op != "int" && x.Op != "id") {
 			return 0, false
 		}
-		n, err := strconv.ParseInt(x.Name, 0, 64)
-		return n, err == nil
+		defer func() {
+			if recover() != nil {
+				ok = false
+			}
+		}()
+		return isNum(e.c.simplify(e.eval(x).T))
 	}
 	isVar := func(x *Expr) bool { return x.Op == "id" && x.Name == name }
 	a, b := g.Args[0], g.Args[1]
 	if len(a.Args) != 2 || len(b.Args) != 2 {
 		return 0, 0, false
 	}
-	if n, k := lit(a.Args[0]); k && isVar(a.Args[1]) && (a.Op == "<=" || a.Op == "<") {
-		lo = n
-		if a.Op == "<" {
-			lo++
-		}
-	} else {
+	if !isVar(a.Args[1]) || (a.Op != "<=" && a.Op != "<") || !isVar(b.Args[0]) || (b.Op != "<=" && b.Op != "<") {
 		return 0, 0, false
 	}
-	if n, k := lit(b.Args[1]); k && isVar(b.Args[0]) && (b.Op == "<=" || b.Op == "<") {
-		hi = n
-		if b.Op == "<=" {
-			hi++
-		}
-	} else {
+	n, k := lit(a.Args[0])
+	if !k {
 		return 0, 0, false
+	}
+	lo = n
+	if a.Op == "<" {
+		lo++
+	}
+	n, k = lit(b.Args[1])
+	if !k {
+		return 0, 0, false
+	}
+	hi = n
+	if b.Op == "<=" {
+		hi++
 	}
 	return lo, hi, true
 }
